@@ -373,6 +373,11 @@ fn directed_world(which: usize, tag: &str) -> Result<W9, String> {
         rows[0].reading = "トウキョウ".into();
         let mut homograph = atom("都"); homograph.pos = 5; rows.push(homograph);          // 16
         rows.push(comp("都", 'C', "16", "*"));                                           // 17: one declared unit
+        // unit lists at the u8 boundary of 4 x count: 64 and 100 A units (the format allows 127), B = two halves
+        rows.push(atom("ん"));                                                              // 18
+        rows.push(comp(&"ん".repeat(32), 'C', &vec!["18"; 32].join("/"), "*"));            // 19
+        rows.push(comp(&"ん".repeat(64), 'C', &vec!["18"; 64].join("/"), "19/19"));        // 20
+        rows.push(comp(&"ん".repeat(100), 'C', &vec!["18"; 100].join("/"), "20/19/18/18/18/18")); // 21
         let sys = DictSpec { rows, pos: pos.clone() };
         let u1 = DictSpec { pos: pos.clone(), rows: vec![atom("い"), comp("東京い", 'C', "0/U0", "*"), comp("い都い", 'C', "U0/1/U0", "U0/1/U0")] };
         let u2 = DictSpec { pos: pos.clone(), rows: vec![atom("あ"), atom("ー"), comp("あー", 'C', "U0/U1", "U0/U1"), comp("あー都", 'C', "U0/U1/1", "U2/1")] };
@@ -1054,9 +1059,17 @@ fn split_case(run: &mut Run, idx: usize, w: &W9, rng: &mut Rng, widx: usize, j: 
     let mut mode = if rng.chance(1, 2) { Mode::A } else { Mode::B };
     let (text, opsd, opsc) = if widx == 0 {
         let texts = ["東京都", "㍿", "ＡＢ", "東京都㍿", "ae\u{301}𠮷", "東京い、い都い", "あー都あー", "ｱｱ", "都", "東京都株式会社", "Ａé𠮷。ab", "あｰ", "東京都㍿い都い"];
-        let t = texts[(j - 2) % texts.len()].to_string();
-        if j >= 2 + texts.len() { mode = Mode::A; }
-        let od = if j < 2 + texts.len() { vec![Op::New(mode)] } else if j % 2 == 0 { vec![Op::New(Mode::C), Op::Sub(4), Op::Md(mode)] } else { vec![Op::New(Mode::C), Op::Md(mode)] };
+        // + the words with 64 and 100 declared A units (unit lists at the u8 boundary of 4 x count): a reader that SKIPS the A
+        // list - mode B with a subset that lacks SPLIT_A - has to step over 256 / 400 bytes
+        let big = ["ん".repeat(64), "ん".repeat(100), format!("都{}", "ん".repeat(64))];
+        let nt = texts.len() + big.len();
+        let k = (j - 2) % nt;
+        let t = if k < texts.len() { texts[k].to_string() } else { big[k - texts.len()].clone() };
+        if j >= 2 + nt { mode = if (j / 3) % 2 == 0 { Mode::A } else { Mode::B }; }
+        // the three big words are analysed in mode B through a subset that lacks SPLIT_A (the A list is SKIPPED by the reader)
+        if k >= texts.len() { mode = Mode::B; }
+        let od = if k >= texts.len() { match k - texts.len() { 0 => vec![Op::New(Mode::B), Op::Sub(1)], 1 => vec![Op::New(Mode::C), Op::Sub(1), Op::Md(Mode::B)], _ => vec![Op::New(Mode::B), Op::Sub(SPLIT_B)] } }
+            else if j < 2 + nt { vec![Op::New(mode)] } else { match j % 3 { 0 => vec![Op::New(Mode::C), Op::Sub(4), Op::Md(mode)], 1 => vec![Op::New(Mode::C), Op::Md(mode)], _ => vec![Op::New(mode), Op::Sub(1)] } };
         (t, od, vec![Op::New(Mode::C)])
     } else if widx == 1 {
         let texts = ["東", "東あ", "東京都", "あ京", "東あああ", "aあ京東"];
